@@ -156,6 +156,19 @@ theorem mv_entry (mean : List K) (covariance L : Matrix K) (source : List K) (sa
     rw [get_ofFn _ _ _ _ _ hs hi]
     rfl
 
+/-- Non-vacuity of `mv_entry` / `mv_shape`: over ℝ the 1×1 covariance `[[4]]` has the Cholesky
+    factor `[[2]]` and one sample is drawn from a source of two numbers. -/
+example : cholesky (⟨[4], 1, 1⟩ : Matrix ℝ) = some ⟨[2], 1, 1⟩ ∧
+    ∃ m, mvSpec [(1 : ℝ)] ⟨[4], 1, 1⟩ [1 / 2, 1 / 4] 1 false = some m := by
+  have hc : cholesky (⟨[4], 1, 1⟩ : Matrix ℝ) = some ⟨[2], 1, 1⟩ := by
+    simp [cholesky, forRange, cholRow, cholEntry, cholSum, foldRange, Decomp.get, Decomp.set, fill,
+      EasyMl.Matrix.getIndex, List.range_succ, List.range_zero, C08.sqrt_four]
+  refine ⟨hc, ?_⟩
+  unfold mvSpec
+  simp only [Bool.false_eq_true, if_false, hc]
+  rw [if_neg (by simp [needed])]
+  exact ⟨_, rfl⟩
+
 /-- **Shape**: a present draw is `samples × features` (`features` = the length of the mean). -/
 theorem mv_shape (mean : List K) (covariance : Matrix K) (source : List K) (samples : ℕ)
     (sameNames : Bool) (m : Matrix K) (h : mvSpec mean covariance source samples sameNames = some m) :
